@@ -154,6 +154,21 @@ def gen_live(ctx, per_variant, n_match):
             flt = gen_filter(r, pool)
             peers = sorted(set(r.choice(pool) for _ in range(r.randrange(2, 6))))
             lines.append(f'{api} {variant} {ctor} 127.0.0.1 {flt} {",".join(peers)}')
+    # connection SEQUENCES to one listener: the same stranger again and again, strangers alternating, permitted peers in
+    # between; every connection is judged on its own (history-free)
+    seqs = [('exact=127.0.0.1', '127.0.0.2,127.0.0.2,127.0.0.2'),
+            ('wc=127.0.0.1', '127.0.0.2,127.0.0.3,127.0.0.2,127.0.0.3,127.0.0.3'),
+            ('set=127.0.0.1+127.0.0.4', '127.0.0.2,127.0.0.1,127.0.0.2,127.0.0.2,127.0.0.4,127.0.0.2,127.0.0.1')]
+    for api, variant, ctor in VARIANTS:
+        for flt, peers in seqs:
+            lines.append(f'{api} {variant} {ctor} 127.0.0.1 {flt} {peers}')
+        for _ in range(max(2, per_variant // 12)):
+            pool = [rand_v4(r) for _ in range(3)] + ['127.0.0.1', '127.0.0.2']
+            flt = gen_filter(r, pool)
+            peers = []
+            for _ in range(r.randrange(4, 8)):
+                peers.append(peers[-1] if peers and r.random() < 0.45 else r.choice(pool))
+            lines.append(f'{api} {variant} {ctor} 127.0.0.1 {flt} {",".join(peers)}')
     # ONE C-ABI filter object, several servers created from it (every order of the three variants, pairs, twice the same),
     # optionally rodbus_address_filter_add afterwards, then the object is destroyed; only then the servers are probed
     import itertools
@@ -229,6 +244,11 @@ Definition to_filter (x : fspec) : option afilter :=
   | FWc s => option_map WildcardIpv4 (parse_wildcard s) end.'''
 LIVE_FN = ('fun c : fspec * list ip => match to_filter (fst c) with None => "BADFILTER" | Some f => '
            'show_list (fun p => if matches f p then "S" else "C") "," (snd c) end')
+# the accept decision over a sequence of connections, through the REGENERATED guard of the accept arm; when the guard has a
+# conjunct that is not the filter test the model has no answer (the implementation is judged against the Spec alone)
+SEQ_FN = ('fun c : fspec * list ip => match to_filter (fst c) with None => "BADFILTER" | Some f => '
+          'if forallb (fun g => match g with GOther _ => false | _ => true end) accept_guard && match accept_guard_kind with GuardUnknown => false | _ => true end '
+          'then show_list (fun b : bool => if b then "S" else "C") "," (serve_seq accept_guard accept_guard_kind (fun _ _ _ => false) [] f (snd c)) else "GUARD?" end')
 
 
 def model_eval(ctx, *a, **kw):
@@ -362,9 +382,12 @@ def run(ctx):
         for ln in live:
             api, variant, ctor, bind, flt, peers = ln.split()
             parsed.append((api, variant, ctor, bind, flt, peers.split(',')))
-        model = model_eval(ctx, ['Base.Show', 'Model.Filter'], LIVE_FN,
+        model = model_eval(ctx, ['Base.Show', 'Gen.ServerCtors', 'Model.Filter'], SEQ_FN,
                              [f'({coq_filter(p[4])}, [{"; ".join(coq_ip(seen_as(p[3], x)) for x in p[5])}])' for p in parsed],
                              case_type='fspec * list ip', preamble=LIVE_PRE, per_shard=100)
+        if any(m == 'GUARD?' for m in model):
+            ctx.oblige('accept-guard-is-the-filter-test', False, 'the regenerated guard of the accept arm has a conjunct besides filter.matches (Gen/ServerCtors.v accept_guard): the model cannot predict sequences')
+            model = [None if m == 'GUARD?' else m for m in model]
         for ln, p, i, m in zip(live, parsed, impl, model):
             api, variant, ctor, bind, flt, peers = p
             got = i.split(',')
@@ -373,15 +396,31 @@ def run(ctx):
                 n_live_bad += 1
                 ctx.oblige('live-scenario-ran', False, f'{ln}: {i}')
                 continue
-            for peer, g, mm in zip(peers, got, mod):
+            for j, (peer, g, mm) in enumerate(zip(peers, got, mod)):
                 n_probes += 1
                 want = 'S' if spec_admits(flt, seen_as(bind, peer)) else 'C'
                 k = f'{api}.{variant}.{ctor}.{want}'
                 outcome_classes[k] = outcome_classes.get(k, 0) + 1
+                if j > 0:
+                    k = 'sequence.' + ('repeat' if peers[j - 1] == peer else 'other') + '.' + want
+                    outcome_classes[k] = outcome_classes.get(k, 0) + 1
                 if g != want:
                     n_live_bad += 1
                     if n_live_bad <= 4:
                         small = f'{api} {variant} {ctor} {bind} {flt} {peer}'
+                        if j > 0:
+                            # does the connection alone reproduce it, or only after the connections before it?
+                            cands = [[peer], peers[j - 1:j + 1], peers[:j + 1]]
+                            outs = ctx.harness('filter_live', [f'{api} {variant} {ctor} {bind} {flt} {",".join(cs)}' for cs in cands], args=[vlib.REPO], timeout=300)
+                            pick = next((cs for cs, o in zip(cands, outs) if o.split(',')[-1] != want), peers[:j + 1])
+                            if len(pick) > 1:
+                                seq = ','.join(pick)
+                                what = {'S': 'is SERVED', 'O': 'is kept open (not closed)'}.get(g, f'gets {g}') if want == 'C' else f'gets {g} instead of being served'
+                                ctx.violation(f'accept-decision-depends-on-earlier-connections.{api}.{variant}',
+                                              f'{api} {variant} server ({ctor}) bound to {bind} with filter {flt}, connections from {seq} in this order: connection #{len(pick)} (peer {peer}, '
+                                              f'{"not matching" if want == "C" else "matching"} the filter) {what}, although the same peer alone is answered correctly; every connection must be judged by the filter alone',
+                                              {'cases': [['live', f'{api} {variant} {ctor} {bind} {flt} {seq}']], 'impl': g, 'spec': want, 'model': mm, 'original_case': ln})
+                                continue
                         if want == 'C':
                             what = {'S': 'is SERVED', 'O': 'is kept open (not closed)'}.get(g, f'gets {g}')
                             key = f'filtered-peer-not-closed.{api}.{variant}'
